@@ -21,6 +21,7 @@ DOC = {
         'C01.R4': 'hashing task: inode groups keyed by file_info.id; FileId equality is the derived one over exactly {device, inode}',
         'C01.R5': 'hash_transformed: the length bound handed to stream_hash has no data dependence on chunk.len (the raw file length)',
         'C01.R6': 'fields of FileInfo written through the &mut handed to hash_fn and read by the group key are assigned on every HashedFileInfo the task sends',
+        'C01.R13': 'one hash per inode is shared only between paths that still have that (device, inode): the hashing task of rehash re-examines the identity of the members of a multi-path group (FileId::new of the path against the scanned id) before the hash function is called, and leaves out the paths that now lead elsewhere',
         'C01.R12': 'with the hash cache a reported group still consists of identical files: an entry that a same-length rewrite within the tick of a coarse file-system clock would leave valid is never stored (re-evaluates C12.R6)',
         'C01.R11': 'a file is identified by its whole FileId: the inode number is never read without the device (derived Eq/Ord/Hash of FileId, the cache key), except by the inode_id() accessor whose only user computes the read-ordering `location`; a run of \'paths of the same file\' keyed by the inode alone would give one hash to different files of two file systems mapped to one DiskDevice',
         'C01.R10': 'the chunks are cut from the length recorded by the scan, so the data are only those of the reported file if the length still holds: the three raw hashing stages hand the scanned length to the hasher with the chunk, and file_hash compares it with the length of the file it has open (fstat) and fails on a mismatch - a file that grew or shrank after the scan leaves the stage with a warning instead of being reported under its old length',
@@ -46,6 +47,7 @@ def run(ctx):
     r9(ctx)
     r10(ctx)
     r11(ctx)
+    r13(ctx)
     from .common import reevaluate
     from . import c12
     reevaluate(ctx, 'C01.R12', c12.r6)
@@ -760,3 +762,40 @@ def r11(ctx):
         ctx.check(bool(locs), rule, p_ + '|inode_id-feeds-location', c.where(), 'inode_id() is only used for the `location` (read ordering) of the file',
                   'inode_id() - the inode number without the device - is used here for something else than the read-ordering `location`')
     ctx.floor(rule, 'inode_id() users', len(users), 1)
+
+
+def r13(ctx):
+    """The hash of one path is given to the other paths of its inode group only if they still are that file."""
+    rule = 'C01.R13'
+    lib = ctx.lib
+    task = None
+    for cp in lib.closures_of('group::rehash'):
+        cb = lib.body(cp)
+        if cb.calls(r'Sender<.*>::send$|Sender::<T>::send$'):
+            task = cb
+    if task is None:
+        ctx.missing(rule, 'hashing task of rehash')
+        return
+    hf = [c for c in task.calls() if not c.f.get('res') and c.f.get('method') in ('call', 'call_once', 'call_mut') and any(n == 'hash_fn' for _, n in backslice(task, [c.args[0]]).upvars)]
+    if not hf:
+        ctx.missing(rule, 'hash_fn invocation in the task', task.where())
+        return
+    rt = [c for c in task.calls(r'Vec<.*>::retain$|Vec::<T, A>::retain$|Iterator::filter$')]
+    ok = False
+    where = hf[0].where()
+    for c in rt:
+        l = op_local(c.args[-1])
+        cp = lib.closure_of_type(task.local_ty(l)) if l is not None else None
+        cb = lib.body(cp) if cp else None
+        if cb is None:
+            continue
+        ids = cb.calls(r'^file::FileId::new$|FileMetadata::new$|^std::fs::metadata$')
+        reads_id = any('id' in place_fields(pl) for blk in cb.blocks for st in blk['stmts'] for pl in rvalue_places(st['rv'])) or \
+            any('id' in backslice(cb, [a]).field_names() for k in cb.calls(r'PartialEq.*>::(eq|ne)$') for a in k.args)
+        # (it sits under `if fg.len() > 1`: a single path shares nothing) - it precedes the hashing, it need not dominate it
+        if ids and reads_id and hf[0].bb in task.reachable(c.bb) and c.bb not in task.reachable(hf[0].bb):
+            ok, where = True, c.where()
+    ctx.check(ok, rule, task.path + '|identity-rechecked', where, 'before one path is hashed for the others, the members of the inode group whose path now leads to another file are left out',
+              'the paths that had one (device, inode) when they were scanned share one hash for ever: only the first path is opened, the others are never looked at again. When a hard-linked name is '
+              'replaced by "write a new file, rename it over the name" (editors, rsync, package managers) between the scan and the hashing - or between two stages - the replaced name is still '
+              'reported with the hash and length of its former siblings although its content differs, or its new content is hashed and given to the untouched siblings')
